@@ -61,6 +61,10 @@ def universe():
         u.append((L('a/'), w, L('/b')))
     u += [(L('a/'), W('x'), L('/'), W('y')), (L('a/'), W('x', 'int'), L('/'), W('y')), (L('a/'), W('x'), L('/'), W('y', 'int')),
           (W('x'), L('/a/'), W('y')), (L('a/'), W('p', 'path'), L('/end')), (L('a/'), W('p', 'path'), L('end')), ()]
+    # a path wildcard whose look-ahead literal is followed by another wildcard; filters whose regex looks at its surroundings
+    # (anchor, word boundary, look-behind): a filter sees only the text from the cursor on
+    u += [(L('a/'), W('p', 'path'), L('/by/'), W('x')), (L('a/'), W('x', 're', r'^\d+')), (L('a'), W('x', 're', r'\b\d+')),
+          (L('a'), W('x', 're', r'(?<=a)\d+')), (L('a/'), W('x', 're', r'(?<!/)\d+'))]
     return u
 
 
@@ -68,11 +72,12 @@ CORE_IDX = None
 
 
 def core_rules(u):
-    """20-rule core: the rules most likely to share / split prefixes."""
+    """22-rule core: the rules most likely to share / split prefixes."""
     want = [(L('a'),), (L('ab'),), (L('a-'),), (W('x'),), (L('a/b'),), (L('a/ab'),), (L('a/'), W('x')), (L('a/'), W('x', 'int')),
             (L('a/'), W('x', 're', 'a+')), (L('a/'), W('p', 'path')), (W('x'), L('/a')), (L('a'), W('x')), (L('a'), W('x', 'int')),
             (W('x', 're', 'a+'), L('b')), (L('a/'), W('x'), L('/b')), (L('a/'), W('x', 'int'), L('/b')),
-            (L('a/'), W('x'), L('/'), W('y')), (W('x'), L('/a/'), W('y')), (L('a/'), W('p', 'path'), L('end')), ()]
+            (L('a/'), W('x'), L('/'), W('y')), (W('x'), L('/a/'), W('y')), (L('a/'), W('p', 'path'), L('end')), (),
+            (L('a/'), W('p', 'path'), L('/by/'), W('x')), (L('a'), W('x', 're', r'\b\d+'))]
     return [u.index(r) for r in want]
 
 
